@@ -89,23 +89,30 @@ def check(ctx) -> None:
            "a sampled outcome is written '1' exactly when the site is in level 1 (r); g and x read '0'" if conv else
            "MPS.sample no longer maps outcome 1 (and only 1) to '1'")
     u = prog.func("emu_sv.utils.index_to_bitstring")
-    fmt = any(isinstance(n_, ast.Call) and util.text(n_.func) == "format" and len(n_.args) == 2 and
-              util.text(n_.args[0]) == "index" and "b" in util.text(n_.args[1]) for n_ in ast.walk(u.node))
+    fmt = util.formats_index_as_padded_binary(u)
     ctx.ob("ROLE-readout", "sv bit convention", u.loc(), fmt,
            "basis index → zero-padded binary string, most significant bit first (register order)" if fmt else
            "index_to_bitstring no longer formats the index as a zero-padded binary string")
-    # 5. errors are applied whenever a rate is positive (emu-sv samplers)
-    for q in SAMPLERS[1:]:
+    # 5. errors are applied whenever a rate is positive
+    for q in SAMPLERS:
         f = prog.func(q)
-        it = Interp(prog, f.cls, inline=lambda c, r, d: False)
+        it = Interp(prog, f.cls, inline=lambda c, r, d: False, loop_iters=(1,))
         bad = 0
+        n = 0
         for p in it.run(f):
             if p.status != "return":
                 continue
+            n += 1
             pos = any(strip_typed(c)[0] == "cmp" and strip_typed(c)[1] == ">" and "p_false" in show(c) and t for c, t in p.cond_log)
             applied = any(e.kind == "call" and e.name == AME for e in p.events)
-            if pos and not applied:
+            # the number of levels is 2 or 3 (enforced by MPS.__init__): `dim == 2` false together with `dim > 2` false is infeasible
+            dims = {(strip_typed(c)[1], t) for c, t in p.cond_log
+                    if strip_typed(c)[0] == "cmp" and show(strip_typed(c)[2]) == "self.dim" and strip_typed(c)[3] == ("const", 2)}
+            infeasible = ("==", False) in dims and (">", False) in dims
+            if pos and not applied and not infeasible:
                 bad += 1
+        ctx.require(n >= 1, f"ROLE-readout: no returning path in {q}")
         ctx.ob("ROLE-readout", f"{f.cls.name}.sample applies errors", f.loc(), bad == 0,
-               "measurement errors are applied whenever one of the rates is positive" if bad == 0 else
-               f"{bad} path(s) with a positive rate return the counts without measurement errors")
+               "measurement errors are applied on every returning path on which one of the rates is positive" if bad == 0 else
+               f"{f.cls.name}.sample: {bad} path(s) with a positive false-positive/false-negative rate return the counts "
+               f"without applying measurement errors")
